@@ -629,6 +629,20 @@ func (fv *FnV) binop(st *State, op token.Token, a, b Val, ty types.Type, n ast.N
 		r := fv.fresh("fr", "Real")
 		e := fv.fresh("fe", "Real")
 		fv.decls = append(fv.decls, fmt.Sprintf("(assert (and (= %s (* %s (+ 1.0 %s))) (<= (- (/ 1.0 9007199254740992.0)) %s) (<= %s (/ 1.0 9007199254740992.0))))", r, exact, e, e, e))
+		// rounding keeps the sign and zero (ground consequences of the relative-error model, stated so that the
+		// solver need not derive them from the nonlinear definition); a square is non-negative
+		fv.decls = append(fv.decls, fmt.Sprintf("(assert (and (=> (> %s 0.0) (> %s 0.0)) (=> (< %s 0.0) (< %s 0.0)) (=> (= %s 0.0) (= %s 0.0))))", exact, r, exact, r, exact, r))
+		if op == token.MUL && a.T == b.T {
+			fv.decls = append(fv.decls, fmt.Sprintf("(assert (and (>= %s 0.0) (=> (not (= %s 0.0)) (> %s 0.0))))", exact, a.T, exact))
+		}
+		if op == token.QUO {
+			fv.decls = append(fv.decls, fmt.Sprintf("(assert (and (=> (and (> %s 0.0) (> %s 0.0)) (> %s 0.0)) (=> (and (= %s 0.0) (not (= %s 0.0))) (= %s 0.0))))", a.T, b.T, exact, a.T, b.T, exact))
+		}
+		// rounding is a monotone function of the exact value: equal exact results round to the same float
+		for _, o := range fv.froundOps {
+			fv.decls = append(fv.decls, fmt.Sprintf("(assert (and (=> (<= %s %s) (<= %s %s)) (=> (<= %s %s) (<= %s %s))))", o[0], exact, o[1], r, exact, o[0], r, o[1]))
+		}
+		fv.froundOps = append(fv.froundOps, [2]string{exact, r})
 		return Val{r, ty}
 	}
 	if isFloatType(opTy) {
